@@ -270,8 +270,34 @@ func c04apiBuilt(rng *sx.Rng, n int) {
 	}
 }
 
+// c04libraryEnv: the library's own environment type, case-insensitive, built from a map with mixed-case names: a
+// reference in any spelling expands to the value
+func c04libraryEnv() {
+	for _, ci := range []bool{true, false} {
+		src := map[string]string{"Deploy_Target": "prod", "UPPER": "u", "lower": "l"}
+		text := "steps:\n- command: echo $deploy_target ${DEPLOY_TARGET} $Deploy_Target $UPPER $upper $lower $LOWER\n  label: \"${Deploy_Target}\"\n"
+		p, err := pipeline.Parse(strings.NewReader(text))
+		if err != nil {
+			continue
+		}
+		ierr := p.Interpolate(pipeline.VerifEnvFromMap(!ci, src), false)
+		want := "echo prod prod prod u u l l"
+		if !ci {
+			want = "echo   prod u  l "
+		}
+		cs := p.Steps[0].(*pipeline.CommandStep)
+		c := sx.L(sx.A("library-env"), sx.B(ci), sx.A(text))
+		if ierr != nil || cs.Command != want || cs.Label != "prod" {
+			oracleFail("C04", "library-env", c, fmt.Sprintf("case-insensitive=%v: command %q label %q (err %v), want %q / \"prod\"", ci, cs.Command, cs.Label, ierr, want))
+			continue
+		}
+		stat("C04", "library-env")
+	}
+}
+
 func init() {
 	props["C04"] = func(rng *sx.Rng, thorough bool) {
+		c04libraryEnv()
 		if thorough {
 			c04aliases(rng, 3000)
 			c04apiBuilt(rng, 3000)
